@@ -85,7 +85,7 @@ class C01(Spec):
     streams = [
         Stream("images", "crash", REFDB, "run_crash_case",
                images([[], ["ddl"], ["ckpt"], ["bulk"], ["ckpt", "ddl", "vacuum"], ["bulk", "ckpt"]], 90, 600, big=3),
-               canon=CG.model_canon, canon_case=CG.make_canon(check_flags=False), rust_shards=16, shard=3, reference=True, measure=CG.measure),
+               canon=CG.model_canon, canon_case=CG.make_canon(check_flags=False, check_reopen=True), rust_shards=16, shard=3, reference=True, measure=CG.measure),
         Stream("simple", "crash", [], None, simple(60, 600), oracle=CG.simple_oracle, rust_shards=16, measure=CG.measure),
         Stream("protocol", "crash", CRASH, "run_protocol_case", protocol(60, 800),
                canon=CG.protocol_canon_model, canon_case=CG.protocol_canon_case, rust_shards=16, shard=20, measure=CG.measure),
